@@ -335,6 +335,40 @@ fn rand256(r: &mut StdRng) -> Big {
     }
 }
 
+/// Quotient-targeted I256 case: x = q * d + k with k of the product's sign and 0 < |k| < |d|, so that the truncated quotient of
+/// x * 1 / d is exactly `q` and the division is inexact - `q` taken from the boundaries of the narrower widths (the rounding
+/// step then has to step across i128::MIN / i128::MAX / 2^64 ... although everything fits easily in 256 bits).
+/// (Host I256 arithmetic builds the operands; None when x does not fit.)
+fn quotient_case(e: &Env, q: &Big, d: i128, k: i128) -> Option<(Big, Big)> {
+    let (qi, di) = (q.to_i256(e)?, I256::from_i128(e, d));
+    if d == 0 || k <= 0 || k >= d.unsigned_abs().min(i128::MAX as u128) as i128 {
+        return None;
+    }
+    // |q| * |d| must stay well inside 255 bits
+    let qbits = 8 * q.mag.iter().skip_while(|b| **b == 0).count() as u32;
+    let dbits = 128 - d.unsigned_abs().leading_zeros();
+    if qbits + dbits >= 250 {
+        return None;
+    }
+    let prod = qi.mul(&di);
+    let zero = I256::from_i128(e, 0);
+    let neg = if prod == zero { (q.neg) != (d < 0) } else { prod < zero };
+    let x = if neg { prod.sub(&I256::from_i128(e, k)) } else { prod.add(&I256::from_i128(e, k)) };
+    Some((Big::from_i256(&x), Big::from_i128(d)))
+}
+
+fn quotient_targets() -> Vec<Big> {
+    let mut v = vec![];
+    for (k, delta) in [(127usize, 0i8), (127, 1), (127, -1), (64, 0), (64, 1), (64, -1), (63, 0), (128, 0), (128, -1), (200, 1)] {
+        v.push(pow2_256(k, delta, true));
+        v.push(pow2_256(k, delta, false));
+    }
+    v.push(Big::from_i128(0));
+    v.push(Big::from_i128(1));
+    v.push(Big::from_i128(-1));
+    v
+}
+
 fn main() {
     match cli() {
         Mode::Exec { input, output } => {
@@ -392,6 +426,19 @@ fn main() {
                     }
                 }
             }
+            // quotient-targeted I256 cases (truncated quotient exactly +-2^127, +-2^127 +- 1, +-2^64 ..., inexact)
+            let qt = quotient_targets();
+            for mode in modes.iter().copied().filter(|_| seed % 1000 == 0) {
+                for q in qt.iter().take(12) {
+                    for d in [3i128, -3, 7, (1i128 << 64) + 1, i128::MIN] {
+                        for k in [1i128, (d.unsigned_abs() - 1).min(i128::MAX as u128) as i128] {
+                            if let Some((x, dd)) = quotient_case(&sys.e, q, d, k) {
+                                t.step(sys.step(&json!({"op": "i256", "mode": mode, "x": x.hex(), "y": Big::from_i128(1).hex(), "d": dd.hex()})));
+                            }
+                        }
+                    }
+                }
+            }
             for _ in 0..runs {
                 t.reset(json!({"op": {"op": "reset"}}));
                 for _ in 0..len {
@@ -413,6 +460,17 @@ fn main() {
                                 y = (edge / x).wrapping_add(r.gen_range(-1..=1));
                             }
                             json!({"op": "i128", "mode": mode, "x": Big::from_i128(x).hex(), "y": Big::from_i128(y).hex(), "d": Big::from_i128(d).hex()})
+                        }
+                        10 if r.gen_bool(0.6) => {
+                            // I256, quotient-targeted (see quotient_case), also through y = -1 and a negated x
+                            let q = pick(&mut r, &qt).clone();
+                            let d = match r.gen_range(0..4) { 0 => *pick(&mut r, &[2i128, -2, 3, -3, 7, -7, 10, 1_000_000_007]), 1 => *pick(&mut r, &lat), _ => pick128(&mut r) };
+                            let k = match r.gen_range(0..3) { 0 => 1, 1 => (d.unsigned_abs().max(2) - 1).min(i128::MAX as u128) as i128, _ => r.gen_range(1..=(d.unsigned_abs().max(2) - 1).min(1 << 100) as i128) };
+                            match quotient_case(&sys.e, &q, d, k) {
+                                Some((x, dd)) if r.gen_bool(0.7) => json!({"op": "i256", "mode": mode, "x": x.hex(), "y": Big::from_i128(1).hex(), "d": dd.hex()}),
+                                Some((x, dd)) => json!({"op": "i256", "mode": mode, "x": Big::from_i128(-1).hex(), "y": x.hex(), "d": Big { neg: !dd.neg, mag: dd.mag.clone() }.norm().hex()}),
+                                None => json!({"op": "i256", "mode": mode, "x": q.hex(), "y": Big::from_i128(1).hex(), "d": Big::from_i128(if d == 0 { 1 } else { d }).hex()}),
+                            }
                         }
                         10..=12 => {
                             // I256: products that fit (small x small) and that do not, boundary quotients
